@@ -178,6 +178,14 @@ func (e *Enc) callWrites(c *ssa.CallCommon) map[string]bool {
 			return e.fnWrites(fn)
 		}
 	}
+	// a call through a function value whose type has a family contract (`sig`): the contract's frame
+	if ct := e.cs.Sigs[types.TypeString(c.Value.Type().Underlying(), shortQual)]; ct != nil && sigWritesNoMemory(ct) {
+		m := map[string]bool{}
+		for _, a := range ct.Assigns {
+			m[strings.Trim(a.List[1].Atom, "\"")] = true
+		}
+		return m
+	}
 	return e.w.funcValueWrites(c)
 }
 
